@@ -303,4 +303,47 @@ def runStream (st : State) : List Request → List Response × Option Code
       let (as, fin) := runStream st rs
       ({ validHost := r.host, originalRequest := r, answer := a } :: as, fin)
 
+/-! ### The builder as a program of calls
+
+`Builder` is consumed and returned by every call, so a configuration is a fold of calls over
+`Builder::configure()`.  The two registration vectors of the real struct are kept as one list in
+call order (`build` separates decoded from encoded registrations again, each kind in call order).
+`build_v1` / `build_v1alpha` differ only in the own descriptor set they push last. -/
+
+/-- One call on `Builder`. -/
+inductive BuilderOp where
+  | register (r : Reg)                      -- register_file_descriptor_set / register_encoded_file_descriptor_set
+  | withServiceName (n : Name)              -- with_service_name
+  | includeReflectionService (b : Bool)     -- include_reflection_service
+
+/-- `struct Builder` -/
+structure Builder where
+  regs : List Reg
+  serviceNames : List Name
+  useAllServiceNames : Bool
+  includeReflectionService : Bool
+
+/-- `Builder::configure()` -/
+def Builder.configure : Builder :=
+  { regs := [], serviceNames := [], useAllServiceNames := true, includeReflectionService := true }
+
+def Builder.step (b : Builder) : BuilderOp → Builder
+  | .register r => { b with regs := b.regs ++ [r] }
+  | .withServiceName n => { b with useAllServiceNames := false, serviceNames := b.serviceNames ++ [n] }
+  | .includeReflectionService x => { b with includeReflectionService := x }
+
+def Builder.run (ops : List BuilderOp) : Builder := ops.foldl Builder.step Builder.configure
+
+/-- What `build_v1` / `build_v1alpha` hand to `ReflectionServiceState::new` (`own`: the version's
+own descriptor set).  `service_names` is only non-empty when `use_all_service_names` is off. -/
+def Builder.config (b : Builder) (own : List File) : Config :=
+  { regs := b.regs
+    chosen := if b.useAllServiceNames then none else some b.serviceNames
+    own := if b.includeReflectionService then some own else none }
+
+/-- `NamedService::NAME` of the generated `ServerReflectionServer`s (what `Routes` and
+`transport::Server` route by): v1, v1alpha. -/
+def serverNameV1 : Name := "grpc.reflection.v1.ServerReflection".toUTF8.toList
+def serverNameV1alpha : Name := "grpc.reflection.v1alpha.ServerReflection".toUTF8.toList
+
 end Reflection
